@@ -14,6 +14,15 @@ pub struct BaseSpec {
 }
 
 impl BaseSpec {
+	/// both accounts of both wallets have the same mining history (so per-account log ids collide)
+	pub fn balanced() -> BaseSpec {
+		BaseSpec {
+			mined: vec![(0, 0, 2), (0, 1, 2), (1, 0, 2), (1, 1, 2)],
+			tail: 3,
+			wallets: 2,
+		}
+	}
+
 	pub fn standard(variant: u64) -> BaseSpec {
 		match variant % 3 {
 			0 => BaseSpec {
